@@ -35,7 +35,7 @@ ASSUMPTIONS = [
 
 
 class Checker:
-    def __init__(self, rows_plain, renamed_with=None):
+    def __init__(self, rows_plain, renamed_with=None, rejected_add=None):
         self.plain = rows_plain
         self.src = conv.mk_rows(rows_plain)
         self.spans = ref.layout(rows_plain)
@@ -45,9 +45,18 @@ class Checker:
             other = Scaffold("t", conv.mk_rows(renamed_with))
             scaffolds.append(other)
         self.asm = IndexedAssembly("a", scaffolds=scaffolds)
+        self.replaced = False
         if renamed_with:
             # the scaffold objects are renamed after indexing (the remapper renames scaffolds by size)
             mine.name, other.name = "t", "s"
+        if rejected_add:
+            # a second scaffold of the same name is offered and refused before the lookup
+            try:
+                self.asm.add_scaffold(Scaffold(mine.name, conv.mk_rows(rejected_add)))
+            except ValueError:
+                pass
+            else:
+                self.replaced = True  # not C18's subject; the case is not judged
 
     def locate(self, row):
         """candidate source indices for a (possibly shortened) row: identity first, else same contig name"""
@@ -166,7 +175,11 @@ def apply_op(r, op):
 
 
 def run_case(rows_plain, bait, ops, rec, case, chk=None):
-    chk = chk or Checker(rows_plain, (case or {}).get("renamed_with"))
+    chk = chk or Checker(rows_plain, (case or {}).get("renamed_with"), (case or {}).get("rejected_add"))
+    if chk.replaced:
+        if rec:
+            rec.note(case, False, {"second_scaffold_accepted_not_judged"})
+        return
     a, b, strand = bait
     r = must(chk.asm.find_overlaps, Fragment("s", a, b, strand, ("Painted", "X")), what="find_overlaps")
     if r is None:
@@ -224,6 +237,8 @@ def cases(draw):
     case = {"rows": rows, "bait": [a, b, draw(st.sampled_from([1, -1]))], "ops": ops}
     if draw(st.integers(0, 7)) == 0:
         case["renamed_with"] = draw(scaffold_rows(max_rows=5))
+    elif draw(st.integers(0, 7)) == 0:
+        case["rejected_add"] = draw(scaffold_rows(max_rows=5))
     return case
 
 
